@@ -489,26 +489,50 @@ fn run_case<N: Fld>(rep: &mut Report, f: Fam, n: u32, tol: f64, n_theta: usize) 
 /// coefficients only (single precision: rounding unit f32::EPSILON), zero tolerances 1e-6 and 1e-5.
 /// A generic-type slip that special-cases `f64` (seeded change C18-m6: the inverse transform keyed
 /// its real fast path on `TypeId::of::<f64>()`) is invisible to the f64 / Complex<f64> sweep.
+/// single precision: `f32` and `Complex<f32>` (the imaginary parts must be exactly zero)
+trait F32Field: nalgebra::ComplexField<RealField = f32> + num_traits::FromPrimitive + Copy {
+    const NAME: &'static str;
+    fn parts(self) -> (f64, f64);
+}
+impl F32Field for f32 {
+    const NAME: &'static str = "f32";
+    fn parts(self) -> (f64, f64) {
+        (self as f64, 0.0)
+    }
+}
+impl F32Field for num_complex::Complex<f32> {
+    const NAME: &'static str = "Complex<f32>";
+    fn parts(self) -> (f64, f64) {
+        (self.re as f64, self.im as f64)
+    }
+}
+
 fn run_case_f32(rep: &mut Report, f: Fam, n: u32, tol: f32) {
+    run_case_single::<f32>(rep, f, n, tol);
+}
+
+fn run_case_single<N: F32Field>(rep: &mut Report, f: Fam, n: u32, tol: f32) {
     let name = f.name();
+    let fld = N::NAME;
     rep.eval();
     rep.count("f32/cells", 1);
-    let case = || J::obj().set("family", name).set("n", n as u64).set("zero_tolerance", tol as f64).set("field", "f32");
+    rep.count(&format!("{}/cells", fld), 1);
+    let case = || J::obj().set("family", name).set("n", n as u64).set("zero_tolerance", tol as f64).set("field", fld);
     let res = probe::guard(|| match f {
-        Fam::Legendre => special::legendre::<f32>(n, tol),
-        Fam::Hermite => special::hermite::<f32>(n, tol),
-        Fam::Laguerre => special::laguerre::<f32>(n, tol),
-        Fam::Cheb1 => special::chebyshev::<f32>(n, tol),
-        Fam::Cheb2 => special::chebyshev_second::<f32>(n, tol),
+        Fam::Legendre => special::legendre::<N>(n, tol),
+        Fam::Hermite => special::hermite::<N>(n, tol),
+        Fam::Laguerre => special::laguerre::<N>(n, tol),
+        Fam::Cheb1 => special::chebyshev::<N>(n, tol),
+        Fam::Cheb2 => special::chebyshev_second::<N>(n, tol),
     });
     let p = match res {
         Guarded::Ok(Ok(p)) => p,
         Guarded::Ok(Err(e)) => {
-            rep.violation(&format!("{}/f32/err", name), case(), format!("{}::<f32>({}, {:e}) returned Err({})", name, n, tol, e));
+            rep.violation(&format!("{}/f32/err", name), case(), format!("{}::<{}>({}, {:e}) returned Err({})", name, fld, n, tol, e));
             return;
         }
         Guarded::Panic(m, l) => {
-            rep.violation(&format!("{}/f32/panic", name), case(), format!("{}::<f32>({}, {:e}) panicked: '{}' at {}", name, n, tol, m, l));
+            rep.violation(&format!("{}/f32/panic", name), case(), format!("{}::<{}>({}, {:e}) panicked: '{}' at {}", name, fld, n, tol, m, l));
             return;
         }
         Guarded::Budget => return,
@@ -517,29 +541,130 @@ fn run_case_f32(rep: &mut Report, f: Fam, n: u32, tol: f32) {
     // single precision cannot hold the leading coefficient 1/n! of high Laguerre indices above the
     // tolerance, nor 2^n n! sized Hermite coefficients beyond its range: keep to representable cells
     let mx = ex.iter().fold(0.0f64, |a, b| a.max(b.abs()));
-    if !(mx < 1e30) || !(ex[n as usize].abs() > 4.0 * tol as f64) {
+    if !(mx < 1e30) || !(ex[n as usize].abs() > 4.0 * tol as f64) || !(ex[n as usize].abs() > 1e-30) {
         rep.count("f32/cells_not_representable", 1);
         return;
     }
     let ord = p.order();
     if ord != n as usize {
-        rep.violation(&format!("{}/f32/order", name), case().set("order", ord), format!("{}::<f32>({}) has order() = {}, expected {}", name, n, ord, n));
+        rep.violation(&format!("{}/f32/order", name), case().set("order", ord), format!("{}::<{}>({}) has order() = {}, expected {}", name, fld, n, ord, n));
         return;
     }
     let e32 = f32::EPSILON as f64;
     let theta = f.absolute_noise();
     for k in 0..=n as usize {
-        let got = p.get_coefficient(k) as f64;
+        let (got, gim) = p.get_coefficient(k).parts();
         let want = ex[k];
         let unit = e32 * (n.max(1) as f64) * (want.abs() + theta * mx);
-        let err = (got - want).abs();
+        let err = nmax((got - want).abs(), gim.abs());
         rep.max(&format!("{}/f32/coef_err_over_unit", name), if err == 0.0 { 0.0 } else { err / unit });
         if !(err <= KC * unit) {
-            rep.violation(&format!("{}/f32/coefficient", name), case().set("power", k).set("got", got).set("exact", want), format!("{}::<f32>({}): coefficient of x^{} is {:e}, exact {:e} (bound {:e})", name, n, k, got, want, KC * unit));
+            rep.violation(&format!("{}/f32/coefficient", name), case().set("power", k).set("got", got).set("got_imaginary_part", gim).set("exact", want), format!("{}::<{}>({}): coefficient of x^{} is {:e} (imaginary part {:e}), exact {:e} (bound {:e})", name, fld, n, k, got, gim, want, KC * unit));
             return;
         }
     }
-    rep.nontrivial(CaseHash::new("c18-f32").s(name).u(n as u64).f(tol as f64).0);
+    rep.nontrivial(CaseHash::new("c18-f32").s(name).s(fld).u(n as u64).f(tol as f64).0);
+}
+
+// ------------------------------------------------------------------ process history
+
+/// Child process of the stage `process-order` (see C19): the first-kind Chebyshev constructor multiplies
+/// polynomials through generic FFT code; whatever that code keeps in a `static` is shared by all its
+/// instantiations for the life of the process. One fresh process per order of numeric types builds
+/// T_4, T_7, T_12, T_20 in each field and reports the worst coefficient error in units of the frozen
+/// bound (NaN counts as infinite).
+pub fn order_probe(order: &str) {
+    fn worst<N: nalgebra::ComplexField + num_traits::FromPrimitive + Copy>(eps: f64, tol: N::RealField, to: &dyn Fn(N) -> (f64, f64)) -> f64
+    where
+        N::RealField: num_traits::FromPrimitive + Copy,
+    {
+        let mut w = 0.0f64;
+        for n in [4u32, 7, 12, 20] {
+            let ex = exact_f64(Fam::Cheb1, n);
+            let mx = ex.iter().fold(0.0f64, |a, b| a.max(b.abs()));
+            match special::chebyshev::<N>(n, tol) {
+                Ok(p) => {
+                    if p.order() != n as usize {
+                        return f64::INFINITY;
+                    }
+                    for k in 0..=n as usize {
+                        let (re, im) = to(p.get_coefficient(k));
+                        let unit = KC * eps * n as f64 * (ex[k].abs() + mx);
+                        // (f64::max ignores a NaN operand: test for it explicitly)
+                        let r = if re.is_nan() || im.is_nan() { f64::INFINITY } else { (re - ex[k]).abs().max(im.abs()) / unit };
+                        w = w.max(r);
+                    }
+                }
+                Err(_) => return f64::INFINITY,
+            }
+        }
+        w
+    }
+    let r64 = || worst::<f64>(EPS, 1e-10, &|v| (v, 0.0));
+    let c64 = || worst::<C64>(EPS, 1e-10, &|v| (v.re, v.im));
+    let r32 = || worst::<f32>(f32::EPSILON as f64, 1e-6, &|v| (v as f64, 0.0));
+    let (a, b, c) = match order {
+        "complex-first" => {
+            let c = c64();
+            let a = r64();
+            let s = r32();
+            (a, c, s)
+        }
+        "real-first" => {
+            let a = r64();
+            let c = c64();
+            let s = r32();
+            (a, c, s)
+        }
+        "single-first" => {
+            let s = r32();
+            let c = c64();
+            let a = r64();
+            (a, c, s)
+        }
+        _ => {
+            println!("PROBE-ERROR unknown order");
+            std::process::exit(3);
+        }
+    };
+    println!("PROBE order={} f64={:e} c64={:e} f32={:e}", order, a, b, c);
+}
+
+fn process_order_case(rep: &mut Report, order: &str) {
+    rep.eval();
+    let exe = match std::env::current_exe() {
+        Ok(e) => e,
+        Err(_) => {
+            rep.inconclusive("process-order: current_exe unavailable");
+            return;
+        }
+    };
+    let text = match std::process::Command::new(exe).args(["probe", "C18", order]).output() {
+        Ok(o) if o.status.success() => String::from_utf8_lossy(&o.stdout).to_string(),
+        _ => {
+            rep.inconclusive("process-order: child process failed");
+            return;
+        }
+    };
+    let line = text.lines().find(|l| l.starts_with("PROBE order=")).unwrap_or("").to_string();
+    let get = |key: &str| -> Option<f64> { line.split_whitespace().find_map(|t| t.strip_prefix(&format!("{}=", key)).and_then(|v| v.parse::<f64>().ok())) };
+    rep.count(&format!("process_order/{}", order), 1);
+    for key in ["f64", "c64", "f32"] {
+        match get(key) {
+            Some(v) => {
+                rep.max(&format!("process_order/{}/{}_worst_error_over_bound", order, key), if v.is_finite() { v } else { 1e300 });
+                if !(v <= 1.0) {
+                    rep.violation(
+                        &format!("process-order/chebyshev-{}", key),
+                        J::obj().set("order_of_the_calls_in_a_fresh_process", order).set("battery", "chebyshev(n, tol) for n in {4, 7, 12, 20} in each field").set("child_output", line.as_str()),
+                        format!("in a fresh process that builds its polynomials in the order {}, the {} results are {:e} x the coefficient bound off (inf: NaN, Err or wrong degree): the result of a constructor depends on which numeric type was used first in the process", order, key, v),
+                    );
+                }
+            }
+            None => rep.inconclusive("process-order: child output not understood"),
+        }
+    }
+    rep.nontrivial(CaseHash::new("c18-process-order").s(order).0);
 }
 
 fn selfcheck() {
@@ -624,6 +749,25 @@ pub fn stages(ctx: &Ctx) -> Vec<Stage> {
         let tol = if i / 105 == 0 { 1e-6f32 } else { 1e-5f32 };
         run_case_f32(rep, f, n, tol);
     }));
+    // Complex<f32>, and zero tolerances far below single-precision rounding for the families that are
+    // built without FFT products (the first-kind Chebyshev products carry transform noise of the order
+    // of eps32, which such a tolerance cannot purge: not an admissible tolerance there)
+    st.push(Stage::new("single-precision-fields-and-small-tolerances", (FAMS.len() * (NMAX as usize + 1) * 4) as u64, move |i, rep| {
+        let f = FAMS[(i % 5) as usize];
+        let n = ((i / 5) % (NMAX as u64 + 1)) as u32;
+        let v = i / 105;
+        let mut tol = [1e-6f32, 1e-10, 1e-14, 1e-10][v as usize];
+        if tol < 1e-7 && f == Fam::Cheb1 {
+            // still below single-precision unit roundoff (1 + tol == 1), which is admissible: the
+            // transform noise sits in the low-order coefficients, whose bound accounts for it
+            tol = 3e-8;
+        }
+        if v == 3 {
+            run_case_single::<f32>(rep, f, n, tol);
+        } else {
+            run_case_single::<num_complex::Complex<f32>>(rep, f, n, tol);
+        }
+    }));
     // History independence: a constructor's result must not depend on what was computed before on
     // the same thread (e.g. tables memoised in the scalar type of the first caller). Each case
     // calls all five constructors in one precision first and then judges the other precision,
@@ -660,6 +804,9 @@ pub fn stages(ctx: &Ctx) -> Vec<Stage> {
             run_case_f32(rep, f, n, 1e-6);
         }
     }));
+    st.push(Stage::new("process-order", 3, move |i, rep| {
+        process_order_case(rep, ["complex-first", "real-first", "single-first"][i as usize]);
+    }));
     st
 }
 
@@ -668,6 +815,8 @@ pub fn thresholds(_ctx: &Ctx, rep: &Report) -> Vec<Threshold> {
         Threshold { what: "reference self-check (closed form == integer recurrence == literals) ran".into(), required: 1.0, observed: rep.counter("reference_selfcheck_passed") as f64 },
         Threshold { what: "cells (family, n, tolerance, field) enumerated".into(), required: 1050.0, observed: rep.counter("cells") as f64 },
         Threshold { what: "single-precision cells enumerated".into(), required: 210.0, observed: rep.counter("f32/cells") as f64 },
+        Threshold { what: "fresh processes probed (three orders of numeric types)".into(), required: 3.0, observed: (rep.counter("process_order/complex-first") + rep.counter("process_order/real-first") + rep.counter("process_order/single-first")) as f64 },
+        Threshold { what: "Complex<f32> cells enumerated".into(), required: 315.0, observed: rep.counter("Complex<f32>/cells") as f64 },
     ];
     t.push(Threshold { what: "double-precision cells judged right after single-precision constructor calls on the same thread".into(), required: 210.0, observed: rep.counter("interleaved/double_precision_cases_after_single_precision_calls") as f64 });
     t.push(Threshold { what: "single-precision cells judged right after double-precision constructor calls on the same thread".into(), required: 210.0, observed: rep.counter("interleaved/single_precision_cases_after_double_precision_calls") as f64 });
